@@ -26,6 +26,8 @@ import (
 	transfertypes "github.com/cosmos/ibc-go/v8/modules/apps/transfer/types"
 	clienttypes "github.com/cosmos/ibc-go/v8/modules/core/02-client/types"
 	channeltypes "github.com/cosmos/ibc-go/v8/modules/core/04-channel/types"
+	ibcexported "github.com/cosmos/ibc-go/v8/modules/core/exported"
+	ibctm "github.com/cosmos/ibc-go/v8/modules/light-clients/07-tendermint"
 
 	"github.com/dymensionxyz/dymension/v3/app/apptesting"
 	denommetadata "github.com/dymensionxyz/dymension/v3/x/denommetadata"
@@ -83,6 +85,12 @@ type c10H struct {
 	// TransferProofHeight was 0 (= completed handshakes; the model's ghost counter nOpen)
 	nOpen map[int]int
 	seqNo    map[int]uint64
+	// rollapp -> index of the sequencer actor that launched it (its dymint key is the next-validator set of the
+	// canonical client's consensus state; it posts the state updates)
+	seqOf map[int]int
+	// two-chain fixture (c10_coord_test.go): messages and packets go through real blocks of the coordinator's hub chain
+	deliverFn func(sdk.Msg) error
+	recvFn    func(channeltypes.Packet, clienttypes.Height) (ibcexported.Acknowledgement, string, error)
 }
 
 type c10Chan struct {
@@ -108,7 +116,11 @@ func (h *c10H) addr(t uint64) string {
 var c10Pool = []uint64{1, 2, 3, 4, 5, 6, 7, 8, 9, c10IroTok, c10BlockedTok}
 
 func newC10H(t *testing.T) *c10H {
-	h := &c10H{e: newIbcEnv(t, 8), t: t, canonOf: map[int]string{}, connOf: map[int]string{}, complete: map[int]bool{}, seqNo: map[int]uint64{}, hasCanonChan: map[int]bool{}, nOpen: map[int]int{}}
+	h := &c10H{e: newIbcEnv(t, 12), t: t, canonOf: map[int]string{}, connOf: map[int]string{}, complete: map[int]bool{}, seqNo: map[int]uint64{}, hasCanonChan: map[int]bool{}, nOpen: map[int]int{}, seqOf: map[int]int{}}
+	// no state is finalized within a trace (forking a finalized height is C02's subject)
+	rp := h.e.f.App.RollappKeeper.GetParams(h.e.f.Ctx)
+	rp.DisputePeriodInBlocks = 1_000_000
+	h.e.f.App.RollappKeeper.SetParams(h.e.f.Ctx, rp)
 	h.gov = authtypes.NewModuleAddress(govtypes.ModuleName).String()
 	if !h.e.f.App.BankKeeper.BlockedAddr(authtypes.NewModuleAddress(distrtypes.ModuleName)) {
 		t.Fatal("distribution module account is expected to be blocked")
@@ -201,6 +213,9 @@ func (h *c10H) genesisInfo(g c10GI) *rollapptypes.GenesisInfo {
 
 // deliver = Fix.Deliver with the message's ValidateBasic inside the panic guard (baseapp recovers there too)
 func (h *c10H) deliver(msg sdk.Msg) (err error) {
+	if h.deliverFn != nil {
+		return h.deliverFn(msg)
+	}
 	defer func() {
 		if r := recover(); r != nil {
 			err = &PanicError{Val: r}
@@ -538,6 +553,7 @@ func (h *c10H) exec(line string) (res string, rc *c10Recv) {
 		}
 		err := h.e.createSequencer(h.seqN, ri)
 		if err == nil {
+			h.seqOf[ri] = h.seqN
 			h.seqN++
 		}
 		return c10Res(err), nil
@@ -548,7 +564,7 @@ func (h *c10H) exec(line string) (res string, rc *c10Recv) {
 		if _, has := app.LightClientKeeper.GetCanonicalClient(h.e.f.Ctx, id); !ok || !ra.Launched || has {
 			return "err", nil
 		}
-		cid, err := h.e.createClient(ibcClientState(id, 10, "ok"), ibcRaTime(10), ibcRoot(10), h.e.valHash(0))
+		cid, err := h.e.createClient(ibcClientState(id, 10, "ok"), ibcRaTime(10), ibcRoot(10), h.e.valHash(h.seqOf[ri]))
 		if err != nil {
 			h.t.Fatal(err)
 		}
@@ -576,7 +592,7 @@ func (h *c10H) exec(line string) (res string, rc *c10Recv) {
 		if _, has := app.LightClientKeeper.GetCanonicalClient(h.e.f.Ctx, id); !ok || !ra.Launched || has {
 			return "err", nil
 		}
-		cid, err := h.e.createClient(ibcClientState(id, 10, "ok"), ibcRaTime(10), ibcRoot(10), h.e.valHash(0))
+		cid, err := h.e.createClient(ibcClientState(id, 10, "ok"), ibcRaTime(10), ibcRoot(10), h.e.valHash(h.seqOf[ri]))
 		if err != nil {
 			h.t.Fatal(err)
 		}
@@ -596,6 +612,9 @@ func (h *c10H) exec(line string) (res string, rc *c10Recv) {
 		conn, ok := h.connOf[ri]
 		if !ok {
 			return "err", nil
+		}
+		if cid := h.canonOf[ri]; !h.clientOfActive(cid) {
+			return "err", nil // ibc core refuses every channel-handshake step over a client that is not active
 		}
 		ch, err := h.e.chanOpenInit(conn)
 		if err != nil {
@@ -644,10 +663,63 @@ func (h *c10H) exec(line string) (res string, rc *c10Recv) {
 			Base: d, Display: d, Name: "preregistered", Symbol: "PRE", DenomUnits: []*banktypes.DenomUnit{{Denom: d, Exponent: 0}}}})
 		handler := denommetadata.NewDenomMetadataProposalHandler(app.DenomMetadataKeeper)
 		return c10Res(h.e.f.Try(func(ctx sdk.Context) error { return handler(ctx, prop) })), nil
+	case "update":
+		// MsgUpdateState for the next n blocks of the rollapp, from its sequencer; block h carries root ibcRoot(h) and time
+		// ibcRaTime(h), which is what the canonical client's consensus state at height 10 holds.  A hard fork unbonds the
+		// proposer and opts every sequencer out: a new sequencer (the next actor of the pool) is created first and becomes
+		// the proposer (MsgCreateSequencer -> RecoverFromSentinel).
+		ri := ridx(f[1])
+		id := ibcRollappID(ri)
+		ai, ok := h.seqOf[ri]
+		if !ok {
+			return "err", nil // no sequencer (not launched): nobody to post it
+		}
+		if app.SequencerKeeper.GetProposer(h.e.f.Ctx, id).Sentinel() {
+			if h.seqN >= len(h.e.seqAddr) {
+				return "bad-op", nil
+			}
+			if err := h.e.createSequencer(h.seqN, ri); err != nil {
+				h.t.Fatal("new sequencer after a hard fork: ", err)
+			}
+			ai = h.seqN
+			h.seqOf[ri] = ai
+			h.seqN++
+		}
+		ra, _ := app.RollappKeeper.GetRollapp(h.e.f.Ctx, id)
+		start := uint64(1)
+		if lh, ok := app.RollappKeeper.GetLatestHeight(h.e.f.Ctx, id); ok {
+			start = lh + 1
+		}
+		n := atou(m["n"])
+		var bds rollapptypes.BlockDescriptors
+		for i := uint64(0); i < n; i++ {
+			bds.BD = append(bds.BD, rollapptypes.BlockDescriptor{Height: start + i, StateRoot: ibcRoot(start + i), Timestamp: ibcRaTime(start + i), DrsVersion: 1})
+		}
+		msg := rollapptypes.MsgUpdateState{Creator: h.e.seqAddr[ai].String(), RollappId: id, StartHeight: start, NumBlocks: n, DAPath: "",
+			BDs: bds, RollappRevision: ra.LatestRevision().Number}
+		return c10Res(h.deliver(&msg)), nil
+	case "fork":
+		// MsgRollappFraudProposal (fraud height h, the revision of that height filled in, nobody punished) from the
+		// governance authority or from somebody else
+		id := ibcRollappID(ridx(f[1]))
+		auth := h.gov
+		if m["by"] != "gov" {
+			auth = h.e.owner.String()
+		}
+		ht := atou(m["h"])
+		var rev uint64
+		if ra, ok := app.RollappKeeper.GetRollapp(h.e.f.Ctx, id); ok {
+			rev = ra.GetRevisionForHeight(ht).Number
+		}
+		msg := rollapptypes.MsgRollappFraudProposal{Authority: auth, RollappId: id, FraudHeight: ht, FraudRevision: rev}
+		return c10Res(h.deliver(&msg)), nil
 	case "link2":
 		ri := ridx(f[1])
 		conn, ok := h.connOf[ri]
 		if !ok {
+			return "err", nil
+		}
+		if cid := h.canonOf[ri]; !h.clientOfActive(cid) {
 			return "err", nil
 		}
 		ch, err := h.e.chanOpenInit(conn)
@@ -742,7 +814,15 @@ func (h *c10H) exec(line string) (res string, rc *c10Recv) {
 				closedBefore = ra.GenesisState.TransferProofHeight == 0
 			}
 		}
-		ack, et, err := h.e.recvPacket(pkt, clienttypes.NewHeight(1, atou(m["ph"])))
+		recvFn := h.e.recvPacket
+		if h.recvFn != nil {
+			recvFn = h.recvFn // two-chain fixture: ibc core itself tests the client
+		} else if !h.clientActive(c.id) {
+			// ibc core's RecvPacket verifies the packet commitment first, and that starts with the status of the channel's
+			// client (03-connection VerifyPacketCommitment): under a client that is not active the message fails
+			return "err", rc
+		}
+		ack, et, err := recvFn(pkt, clienttypes.NewHeight(1, atou(m["ph"])))
 		if err == nil && ack != nil && ack.Success() && closedBefore {
 			h.nOpen[c.r]++
 		}
@@ -763,6 +843,31 @@ func (h *c10H) exec(line string) (res string, rc *c10Recv) {
 		return "async", rc
 	}
 	return "bad-op", nil
+}
+
+// clientActive: the status ibc core computes for the client under a channel (the real ClientKeeper.GetClientStatus)
+func (h *c10H) clientActive(chanID string) bool {
+	k := h.e.f.App.IBCKeeper
+	ctx := h.e.f.Ctx
+	ch, ok := k.ChannelKeeper.GetChannel(ctx, "transfer", chanID)
+	if !ok || len(ch.ConnectionHops) == 0 {
+		return true
+	}
+	conn, ok := k.ConnectionKeeper.GetConnection(ctx, ch.ConnectionHops[0])
+	if !ok {
+		return true
+	}
+	cs, ok := k.ClientKeeper.GetClientState(ctx, conn.ClientId)
+	if !ok {
+		return true
+	}
+	return k.ClientKeeper.GetClientStatus(ctx, cs, conn.ClientId) == ibcexported.Active
+}
+
+func (h *c10H) clientOfActive(clientID string) bool {
+	k := h.e.f.App.IBCKeeper.ClientKeeper
+	cs, ok := k.GetClientState(h.e.f.Ctx, clientID)
+	return !ok || k.GetClientStatus(h.e.f.Ctx, cs, clientID) == ibcexported.Active
 }
 
 func indexOfChan(cs []c10Chan, id string) int {
@@ -797,6 +902,9 @@ type c10RaSnap struct {
 	Supply           *big.Int
 	Denom            string
 	NOpen            int
+	LastH            uint64 // latest rollapp height the hub holds a state update for
+	Frozen           bool   // the canonical client's FrozenHeight is set
+	Rev              uint64 // number of hard forks
 }
 
 type c10Snap struct {
@@ -882,6 +990,15 @@ func (h *c10H) snapshot() *c10Snap {
 		}
 		r.Tph = ra.GenesisState.TransferProofHeight
 		r.NOpen = h.nOpen[ri]
+		r.LastH, _ = app.RollappKeeper.GetLatestHeight(ctx, ra.RollappId)
+		r.Rev = uint64(len(ra.Revisions) - 1) // number of hard forks (= the latest revision number, except on the two-chain fixture, whose rollapp starts at revision 2: ibctesting headers carry app version 2)
+		if cid, ok := app.LightClientKeeper.GetCanonicalClient(ctx, ra.RollappId); ok {
+			if cs, ok := app.IBCKeeper.ClientKeeper.GetClientState(ctx, cid); ok {
+				if tm, ok := cs.(*ibctm.ClientState); ok {
+					r.Frozen = !tm.FrozenHeight.IsZero()
+				}
+			}
+		}
 		r.Bal = map[uint64]*big.Int{}
 		r.Supply = big.NewInt(0)
 		s.Ras = append(s.Ras, r)
@@ -978,7 +1095,7 @@ func (s *c10Snap) render(res string) string {
 		if r.HasPlan {
 			te = b2s(r.PlanTE)
 		}
-		fmt.Fprintf(&sb, " | r%d l=%s gi=%s pl=%s plan=%s te=%s ps=%s ch=%s tph=%d no=%d md=%s bal=%s", ri, b2s(r.Launched), r.GI, r.PreLaunch, r.Plan, te, r.PlanStart, r.Chan, r.Tph, r.NOpen, b2s(r.Md), bal)
+		fmt.Fprintf(&sb, " | r%d l=%s gi=%s pl=%s plan=%s te=%s ps=%s ch=%s tph=%d no=%d md=%s lh=%d fz=%s rev=%d bal=%s", ri, b2s(r.Launched), r.GI, r.PreLaunch, r.Plan, te, r.PlanStart, r.Chan, r.Tph, r.NOpen, b2s(r.Md), r.LastH, b2s(r.Frozen), r.Rev, bal)
 	}
 	sb.WriteString(" | chans=" + s.Chans)
 	return sb.String()
@@ -1076,8 +1193,41 @@ func (m *c10Mon) check(op, res string, rc *c10Recv, cur *c10Snap, digestBefore, 
 		if !(f[0] == "recv" && rc != nil && rc.ch.kind == 'c' && rc.ch.r == ri) && (!c10BalEq(p.Bal, c.Bal) || p.Tph != c.Tph || (p.Md != c.Md && !(f[0] == "premd" && ridx(f[1]) == ri && !p.Md))) {
 			m.violate("C10/credited_exactly/bridge-state-changed-outside-handshake", fmt.Sprintf("r%d by %s", ri, op))
 		}
+		// fork_keeps_bridge: a hard fork (accepted or not) leaves proof height, registered genesis info, credited vouchers and their
+		// supply, the bank metadata of the rollapp's IBC denom, the recorded canonical channel, the IRO plan and the launch flag alone
+		if f[0] == "fork" && (p.Tph != c.Tph || p.GI != c.GI || !c10BalEq(p.Bal, c.Bal) || p.Md != c.Md || p.Chan != c.Chan || p.Plan != c.Plan ||
+			p.Launched != c.Launched || p.Supply.Cmp(c.Supply) != 0) {
+			m.violate("C10/fork_keeps_bridge/bridge-state-changed-by-fork", fmt.Sprintf("r%d by %s", ri, op))
+		}
 	}
 	switch f[0] {
+	case "fork":
+		ri := ridx(f[1])
+		if res == "ok" && ri < len(prev.Ras) {
+			if !strings.Contains(op, "by=gov") {
+				m.violate("C10/fork_guard/accepted-from-non-authority", op)
+			}
+			if prev.Ras[ri].Tph == 0 {
+				m.violate("C10/fork_guard/accepted-while-bridge-closed", op)
+			}
+			if !cur.Ras[ri].Frozen {
+				m.violate("C10/fork_freezes/client-not-frozen-after-fork", op)
+			}
+			m.r.Hit("fork/accepted")
+			if prev.Ras[ri].Frozen {
+				m.r.Hit("fork/accepted-while-frozen")
+			}
+		}
+	case "update":
+		ri := ridx(f[1])
+		if res == "ok" && ri < len(prev.Ras) {
+			if cur.Ras[ri].Frozen {
+				m.violate("C10/update_reopens/client-still-frozen-after-state-update", op)
+			}
+			if prev.Ras[ri].Frozen {
+				m.r.Hit("update/unfreezes-after-fork")
+			}
+		}
 	case "enable":
 		// trading of an IRO plan is switched on by the rollapp's owner only, and only once
 		ri := ridx(f[1])
@@ -1109,8 +1259,16 @@ func (m *c10Mon) check(op, res string, rc *c10Recv, cur *c10Snap, digestBefore, 
 		if !h.complete[c.r] && res == "ok" {
 			m.violate("C10/closed_blocks_outgoing/transfer-sent-before-handshake", op)
 		}
-		if h.complete[c.r] && res != "ok" {
+		// open_flows: after the handshake transfers flow - unless a hard fork has the canonical client frozen (until the
+		// rollapp's next state update), in which case ibc core refuses them
+		if h.complete[c.r] && res != "ok" && !prev.Ras[c.r].Frozen {
 			m.violate("C10/open_flows/transfer-refused-after-handshake", op)
+		}
+		if prev.Ras[c.r].Frozen && res == "ok" {
+			m.violate("C10/fork_freezes/transfer-sent-over-frozen-client", op)
+		}
+		if prev.Ras[c.r].Frozen {
+			m.r.Hit("send/frozen-client")
 		}
 	case "recv":
 		if rc != nil && rc.ch.kind == 's' {
@@ -1696,6 +1854,58 @@ func (c *c10Gen) next(s *c10Snap, step int) string {
 	}
 	linked := r.Chan != "-"
 	_, hasClient := h.canonOf[ri]
+	if r.Launched {
+		// state updates and hard forks (MsgRollappFraudProposal) of a launched rollapp
+		switch u := g.Intn(100); {
+		case u < 9 || (r.Frozen && u < 30):
+			if r.Frozen {
+				c.r.Hit("update/frozen-client")
+			} else {
+				c.r.Hit("update/active-client")
+			}
+			n := 3 + g.Intn(12)
+			if g.Chance(5) {
+				n = 0
+				c.r.Hit("update/no-blocks")
+			}
+			return fmt.Sprintf("update %s n=%d", rt, n)
+		case u < 19 && h.seqN+2 <= len(h.e.seqAddr): // (every accepted fork costs a sequencer of the pool at the next state update)
+			by := "gov"
+			if g.Chance(15) {
+				by = "other"
+				c.r.Hit("fork/not-authority")
+			}
+			lo := r.Tph + 1
+			if lo < 11 {
+				lo = 11
+			}
+			ht := lo + uint64(g.Intn(int(r.LastH+3)))
+			switch g.Intn(8) {
+			case 0:
+				ht = uint64(g.Intn(int(r.Tph) + 2)) // at or below the proof height (0 included)
+				c.r.Hit("fork/at-or-below-proof-height")
+			case 1:
+				ht = uint64(1 + g.Intn(11))
+				c.r.Hit("fork/low-height")
+			}
+			switch {
+			case r.Tph == 0:
+				c.r.Hit("fork/bridge-closed")
+			case r.LastH == 0:
+				c.r.Hit("fork/no-state")
+			case !hasClient:
+				c.r.Hit("fork/no-canonical-client")
+			case ht > r.LastH:
+				c.r.Hit("fork/future-height")
+			default:
+				c.r.Hit("fork/truncating")
+			}
+			if r.Frozen {
+				c.r.Hit("fork/while-frozen")
+			}
+			return fmt.Sprintf("fork %s by=%s h=%d", rt, by, ht)
+		}
+	}
 	k := g.Intn(100)
 	switch {
 	case !r.Launched && k < 30:
@@ -1889,6 +2099,10 @@ func (c *c10Gen) next(s *c10Snap, step int) string {
 }
 
 func c10RunTrace(t *testing.T, r *Run, lines []string, gen func(h *c10H, s *c10Snap, i int) string, nOps int) {
+	if len(lines) > 0 && c10IsCoordTrace(lines[0]) {
+		c10CoordRunTrace(t, r, lines) // two-chain fixture, see c10_coord_test.go
+		return
+	}
 	h := newC10H(t)
 	mon := &c10Mon{h: h, r: r}
 	hash := sha256.New()
@@ -2081,6 +2295,57 @@ func c10Directed() [][]string {
 			"send c0",
 			strings.Replace(hs2, "recv cX", "recv c0", 1),
 		},
+		{ // hard fork (MsgRollappFraudProposal): refused while the bridge is closed, from a non-authority, at or below the proof height;
+			// accepted, it freezes the canonical client - nothing in or out - and leaves proof height / credits / metadata alone;
+			// a second fork while frozen; the next state update re-opens; a repeated handshake packet is then passed on
+			"reset nra=2",
+			"create r0 " + gi2,
+			"update r0 n=3",
+			"seq r0",
+			"link r0",
+			"fork r0 by=gov h=12",
+			"update r0 n=12",
+			"fork r0 by=gov h=12",
+			strings.Replace(hs2, "recv cX", "recv c0", 1),
+			"send c0",
+			"fork r0 by=other h=12",
+			"fork r0 by=gov h=7",
+			"fork r0 by=gov h=8",
+			"fork r0 by=gov h=0",
+			"fork r1 by=gov h=12",
+			"chopen r0 via=try",
+			"fork r0 by=gov h=12",
+			"send c0",
+			"recv c0 ph=9 kind=ft tr=1/5/1/1/1",
+			strings.Replace(hs2, "recv cX", "recv c0", 1),
+			"recv c1 ph=9 kind=ft tr=1/5/1/1/1",
+			"send c1",
+			"fork r0 by=gov h=30",
+			"update r0 n=0",
+			"update r0 n=3",
+			"send c0",
+			"recv c0 ph=9 kind=ft tr=1/5/1/1/1",
+			strings.Replace(hs2, "recv cX", "recv c0", 1),
+			"recv c1 ph=9 kind=ft tr=1/5/1/1/1",
+			"fork r0 by=gov h=13",
+			"update r0 n=5",
+			"send c0",
+		},
+		{ // a fork below the only consensus state the canonical client holds (height 10) finds nothing to freeze at
+			"reset nra=2",
+			"create r0 " + gi2,
+			"seq r0",
+			"link r0",
+			"update r0 n=9",
+			strings.Replace(hs2, "recv cX", "recv c0", 1),
+			"fork r0 by=gov h=12",
+			"update r0 n=4",
+			"fork r0 by=gov h=10",
+			"fork r0 by=gov h=11",
+			"send c0",
+			"update r0 n=1",
+			"send c0",
+		},
 		{ // trading never enabled: the rollapp stays unlaunchable for 10 years
 			"reset nra=2",
 			"create r0 " + gi(1, reg),
@@ -2111,6 +2376,10 @@ func TestC10(t *testing.T) {
 	for _, lines := range c10Directed() {
 		r.Hit("directed/deferred-trading-trace")
 		c10RunTrace(t, r, lines, nil, 0)
+	}
+	for _, d := range c10CoordDirected() {
+		r.Hit("directed/coord-trace/" + d.name) // the branches themselves are hit from the outcomes (c10CoordH.branch)
+		c10RunTrace(t, r, d.lines, nil, 0)
 	}
 	nTraces, nOps := r.N(220, 4000), r.N(45, 60)
 	for tr := 0; tr < nTraces; tr++ {
